@@ -1,12 +1,13 @@
 from common import T_COMMON
 
 CFG = dict(
+    modules=["PolyVerif.Props.C02", "PolyVerif.Props.C02Delaunay"],
     theorems=["prim_wf", "uvSphere_wf", "uvSphereUnwelded_wf", "hemisphere_wf", "circle_wf", "cone_wf", "cylinder_wf", "cylinder_nocaps_wf",
               "extrudeShape_wf", "screw_wf", "extrudeLine_wf", "extrudePolygon_wf", "marchBlock_wf", "march_wf", "quad_wf", "cube_wf", "cubeUnwelded_wf",
               "unweld_wf", "removeUnreferenced_wf", "toPointCloud_wf", "flip_wf", "setIndices_wf",
               "append_wf", "setAttr_wf", "setAttr_delete_wf", "modifyAttr_wf", "mapAttr_wf", "setNormals_wf", "filterAttr_wf",
               "filterAttr_rejects_non_point", "crop_wf", "removeNullFaces_wf",
-              "splitOnMaterials_wf", "weld_wf", "repeatMesh_wf", "clearAttrs_wf", "setData_wf", "step_wf", "ops_closed", "ops_closed_transforms", "march_blocks_wf",],
+              "splitOnMaterials_wf", "weld_wf", "repeatMesh_wf", "clearAttrs_wf", "setData_wf", "step_wf", "ops_closed", "ops_closed_transforms", "march_blocks_wf", "bowyerWatson_wf", "bowyerWatson_entry_wf"],
     # one-line instances / records: kernel-checked with the module, not counted as property obligations
     helper_theorems=["translate_wf", "scaleAbout_wf", "scaleMesh_wf", "rotate_wf", "applyTRS_wf", "center_wf", "normalize_wf", "smoothNormals_wf", "flatNormals_wf", "laplacian_wf", "filterAttrOld_breaks_triangles"],
     streams=[dict(name="c02", n=dict(quick=400, thorough=12000))],
@@ -23,7 +24,8 @@ CFG = dict(
              "operations without a Lean model, covered ONLY by the WF oracle on every mesh they return (called on generated WF meshes of all topologies): SliceByPlaneWithAttribute / "
              "SliceByPlaneTransformer, ColorGradingLut, VertexColorSpace, SmoothNormalsImplicitWeld (finite positions only), LaplacianSmoothAlongAxis, ScaleAttributeAlongNormal "
              "(+Transformer), ScaleAttribute2D, NormalizeAttribute2D",
-             "generators without a theorem, WF oracle only: triangulation.BowyerWatson, triangulation.ConstrainedBowyerWatson (with constraint polygons that clip triangles and add "
+             "triangulation.BowyerWatson: bowyerWatson_wf is about the C20 model Model/Delaunay.lean (every enumeration order of the triangle map), tied to Go by the C20 correspondence and here by the WF oracle; "
+             "generators without a theorem, WF oracle only: triangulation.ConstrainedBowyerWatson (with constraint polygons that clip triangles and add "
              "points), repeat/{circle,line,curve,fibonacci}.go point generators; CircleAlongSpline.Extrude is covered by extrudePolygon_wf through the polygon_idx oracle",
              "the generator theorems are about the Lean index generators; their link to the Go constructors is the exact comparison of (vertex count, index list) on parameter sweeps: "
              "exhaustive 0..8 (quick) / 0..24 (thorough) plus fixed and sampled NON-SQUARE parameters (rows >> columns and columns >> rows, rows = columns + 2..4) up to 512 in thorough",
